@@ -113,3 +113,225 @@ fn c06_receive_acks_unauthorized() {
     kani::cover!(len == 0, "empty message");
     core::mem::forget((server, rows, entity_buffer));
 }
+
+// -------------------------------------------------------------------------------------------
+// C03 / C08: despawns, visibility loss and removals collected for one client
+
+use crate::server::replication_messages::updates::verif_kani as upd;
+
+const ENTS: [Entity; 2] = [Entity::from_raw(0), Entity::from_raw(1)];
+/// `serialize_entity` of ENTS[i] is the single byte 2*i (generation 1, no flag).
+const ENT_BYTE: [u8; 2] = [0, 2];
+
+#[derive(Clone, Copy, PartialEq)]
+enum Policy {
+    All,
+    Blacklist,
+    Whitelist,
+}
+
+/// A client that holds both entities (they were visible and replicated at the last tick).
+fn client_holding_both(policy: Policy) -> ClientRow {
+    let visibility = match policy {
+        Policy::All => None,
+        Policy::Blacklist => Some(ClientVisibility::blacklist()),
+        Policy::Whitelist => {
+            let mut v = ClientVisibility::whitelist();
+            v.set_visibility(ENTS[0], true);
+            v.set_visibility(ENTS[1], true);
+            v.update();
+            Some(v)
+        }
+    };
+    ClientRow::authorized(CLIENTS[0], 1200, visibility)
+}
+
+/// One concrete scenario: the client holds entity 0 or not (`held`), then `ops` (pairs of bits:
+/// 0 = none, 1 = show, 2 = hide) are applied inside the tick window, then the entity is despawned
+/// or not, then `collect_despawns` runs. Returns nothing; asserts the despawn records.
+fn despawn_scenario(policy: Policy, held: bool, ops: [u8; 2], despawned: bool) {
+    let mut rows = [client_holding_both(policy)];
+    let mut visible = true;
+    if !held {
+        // Hidden for longer than a tick: the client does not hold the entity.
+        let v = rows[0].visibility.as_mut().unwrap();
+        v.set_visibility(ENTS[0], false);
+        for _ in v.drain_lost() {}
+        v.update();
+        visible = false;
+    }
+    for kind in ops {
+        if kind > 0 {
+            let v = kind == 1;
+            rows[0].visibility.as_mut().unwrap().set_visibility(ENTS[0], v);
+            visible = v;
+        }
+    }
+    let mut despawn_buffer = DespawnBuffer::default();
+    if despawned {
+        // `buffer_despawns`: the entity lost `Replicated`.
+        despawn_buffer.push(ENTS[0]);
+    }
+    let mut serialized = SerializedData::default();
+    collect_despawns(&mut serialized, &mut Query::new(&mut rows), &mut despawn_buffer).unwrap();
+
+    let (count0, total) = upd::count_despawn_byte(&rows[0].auth().updates, &serialized, ENT_BYTE[0]);
+    let (count1, _) = upd::count_despawn_byte(&rows[0].auth().updates, &serialized, ENT_BYTE[1]);
+    if held && (despawned || !visible) {
+        // The client holds the entity and it is gone or hidden now: it must be told, once.
+        assert!(count0 == 1);
+    } else if !despawned && visible {
+        // A live, visible entity is never despawned on the client.
+        assert!(count0 == 0);
+    } else {
+        // Not held: a despawn record is unnecessary but harmless; never more than one.
+        assert!(count0 <= 1);
+    }
+    assert!(count1 == 0);
+    assert!(upd::despawns_len(&rows[0].auth().updates) == total);
+    assert!(despawn_buffer.is_empty());
+    // The per-client mutation bookkeeping forgets a despawned / lost entity.
+    if held && (despawned || !visible) {
+        assert!(rows[0].auth().ticks.mutation_tick(ENTS[0]).is_none());
+    }
+    core::mem::forget((rows, serialized, despawn_buffer));
+}
+
+/// Every window of at most 2 visibility operations on entity 0, followed by a despawn or not,
+/// from both pre-states. The scenarios are enumerated concretely: a symbolic visibility state
+/// combined with the despawn path exhausts CBMC's memory (probe P22), while each concrete
+/// scenario is executed symbolically in a few seconds.
+fn despawn_scenarios(policy: Policy, held: bool, despawned: bool) {
+    let mut k1 = 0u8;
+    while k1 < 3 {
+        let mut k2 = 0u8;
+        while k2 < 3 {
+            despawn_scenario(policy, held, [k1, k2], despawned);
+            k2 += 1;
+        }
+        k1 += 1;
+    }
+    kani::cover!(k1 == 3, "all 9 windows executed");
+    kani::cover!(despawned || !despawned, "scenario family reached its end");
+}
+
+// HARNESS: c03_window_all
+// PROPS: C03
+// TIER: quick
+// TIMEOUT: 600
+// DRIVES: collect_despawns, Updates::add_despawn, SerializedData::write_entity, ClientTicks::remove_entity
+// BOUNDS: no visibility policy; client holds 2 entities; entity 0 despawned or not (two concrete scenarios); then one tick; unwind 6
+#[kani::proof]
+#[kani::unwind(6)]
+#[kani::stub(log::max_level, log_off)]
+fn c03_window_all() {
+    despawn_scenario(Policy::All, true, [0, 0], true);
+    despawn_scenario(Policy::All, true, [0, 0], false);
+    kani::cover!(true, "both scenarios executed");
+    kani::cover!(ENT_BYTE[1] == 2, "entity encoding as assumed");
+}
+
+// HARNESS: c03_window_blacklist_held_despawn
+// PROPS: C03 C08
+// TIER: quick
+// TIMEOUT: 900
+// DRIVES: collect_despawns, ClientVisibility::set_visibility, ClientVisibility::is_visible, ClientVisibility::remove_despawned, ClientVisibility::drain_lost, Updates::add_despawn, SerializedData::write_entity, ClientTicks::remove_entity
+// BOUNDS: blacklist policy; entity 0 held by the client; all 9 windows of 2 operations from {none, show, hide} (enumerated concretely), then despawned; then one tick (collect_despawns); stand-in maps CAP 4; unwind 6
+#[kani::proof]
+#[kani::unwind(6)]
+#[kani::stub(log::max_level, log_off)]
+fn c03_window_blacklist_held_despawn() {
+    despawn_scenarios(Policy::Blacklist, true, true);
+}
+
+// HARNESS: c03_window_blacklist_held_alive
+// PROPS: C03 C08
+// TIER: quick
+// TIMEOUT: 900
+// DRIVES: collect_despawns, ClientVisibility::set_visibility, ClientVisibility::is_visible, ClientVisibility::remove_despawned, ClientVisibility::drain_lost, Updates::add_despawn, SerializedData::write_entity, ClientTicks::remove_entity
+// BOUNDS: blacklist policy; entity 0 held by the client; all 9 windows of 2 operations from {none, show, hide} (enumerated concretely), then kept alive; then one tick (collect_despawns); stand-in maps CAP 4; unwind 6
+#[kani::proof]
+#[kani::unwind(6)]
+#[kani::stub(log::max_level, log_off)]
+fn c03_window_blacklist_held_alive() {
+    despawn_scenarios(Policy::Blacklist, true, false);
+}
+
+// HARNESS: c03_window_blacklist_nothold_despawn
+// PROPS: C03 C08
+// TIER: thorough
+// TIMEOUT: 900
+// DRIVES: collect_despawns, ClientVisibility::set_visibility, ClientVisibility::is_visible, ClientVisibility::remove_despawned, ClientVisibility::drain_lost, Updates::add_despawn, SerializedData::write_entity, ClientTicks::remove_entity
+// BOUNDS: blacklist policy; entity 0 hidden for longer than a tick (not held); all 9 windows of 2 operations from {none, show, hide} (enumerated concretely), then despawned; then one tick (collect_despawns); stand-in maps CAP 4; unwind 6
+#[kani::proof]
+#[kani::unwind(6)]
+#[kani::stub(log::max_level, log_off)]
+fn c03_window_blacklist_nothold_despawn() {
+    despawn_scenarios(Policy::Blacklist, false, true);
+}
+
+// HARNESS: c03_window_blacklist_nothold_alive
+// PROPS: C03 C08
+// TIER: thorough
+// TIMEOUT: 900
+// DRIVES: collect_despawns, ClientVisibility::set_visibility, ClientVisibility::is_visible, ClientVisibility::remove_despawned, ClientVisibility::drain_lost, Updates::add_despawn, SerializedData::write_entity, ClientTicks::remove_entity
+// BOUNDS: blacklist policy; entity 0 hidden for longer than a tick (not held); all 9 windows of 2 operations from {none, show, hide} (enumerated concretely), then kept alive; then one tick (collect_despawns); stand-in maps CAP 4; unwind 6
+#[kani::proof]
+#[kani::unwind(6)]
+#[kani::stub(log::max_level, log_off)]
+fn c03_window_blacklist_nothold_alive() {
+    despawn_scenarios(Policy::Blacklist, false, false);
+}
+
+// HARNESS: c03_window_whitelist_held_despawn
+// PROPS: C03 C08
+// TIER: quick
+// TIMEOUT: 900
+// DRIVES: collect_despawns, ClientVisibility::set_visibility, ClientVisibility::is_visible, ClientVisibility::remove_despawned, ClientVisibility::drain_lost, Updates::add_despawn, SerializedData::write_entity, ClientTicks::remove_entity
+// BOUNDS: whitelist policy; entity 0 held by the client; all 9 windows of 2 operations from {none, show, hide} (enumerated concretely), then despawned; then one tick (collect_despawns); stand-in maps CAP 4; unwind 6
+#[kani::proof]
+#[kani::unwind(6)]
+#[kani::stub(log::max_level, log_off)]
+fn c03_window_whitelist_held_despawn() {
+    despawn_scenarios(Policy::Whitelist, true, true);
+}
+
+// HARNESS: c03_window_whitelist_held_alive
+// PROPS: C03 C08
+// TIER: quick
+// TIMEOUT: 900
+// DRIVES: collect_despawns, ClientVisibility::set_visibility, ClientVisibility::is_visible, ClientVisibility::remove_despawned, ClientVisibility::drain_lost, Updates::add_despawn, SerializedData::write_entity, ClientTicks::remove_entity
+// BOUNDS: whitelist policy; entity 0 held by the client; all 9 windows of 2 operations from {none, show, hide} (enumerated concretely), then kept alive; then one tick (collect_despawns); stand-in maps CAP 4; unwind 6
+#[kani::proof]
+#[kani::unwind(6)]
+#[kani::stub(log::max_level, log_off)]
+fn c03_window_whitelist_held_alive() {
+    despawn_scenarios(Policy::Whitelist, true, false);
+}
+
+// HARNESS: c03_window_whitelist_nothold_despawn
+// PROPS: C03 C08
+// TIER: thorough
+// TIMEOUT: 900
+// DRIVES: collect_despawns, ClientVisibility::set_visibility, ClientVisibility::is_visible, ClientVisibility::remove_despawned, ClientVisibility::drain_lost, Updates::add_despawn, SerializedData::write_entity, ClientTicks::remove_entity
+// BOUNDS: whitelist policy; entity 0 hidden for longer than a tick (not held); all 9 windows of 2 operations from {none, show, hide} (enumerated concretely), then despawned; then one tick (collect_despawns); stand-in maps CAP 4; unwind 6
+#[kani::proof]
+#[kani::unwind(6)]
+#[kani::stub(log::max_level, log_off)]
+fn c03_window_whitelist_nothold_despawn() {
+    despawn_scenarios(Policy::Whitelist, false, true);
+}
+
+// HARNESS: c03_window_whitelist_nothold_alive
+// PROPS: C03 C08
+// TIER: thorough
+// TIMEOUT: 900
+// DRIVES: collect_despawns, ClientVisibility::set_visibility, ClientVisibility::is_visible, ClientVisibility::remove_despawned, ClientVisibility::drain_lost, Updates::add_despawn, SerializedData::write_entity, ClientTicks::remove_entity
+// BOUNDS: whitelist policy; entity 0 hidden for longer than a tick (not held); all 9 windows of 2 operations from {none, show, hide} (enumerated concretely), then kept alive; then one tick (collect_despawns); stand-in maps CAP 4; unwind 6
+#[kani::proof]
+#[kani::unwind(6)]
+#[kani::stub(log::max_level, log_off)]
+fn c03_window_whitelist_nothold_alive() {
+    despawn_scenarios(Policy::Whitelist, false, false);
+}
+
